@@ -387,3 +387,38 @@ Proof.
   destruct (Nat.leb_spec (length out) (length x * 3 + 3)); [|lia]. split; [reflexivity|].
   intros cap Hcap. rewrite Hc. destruct (Nat.leb_spec (length out) cap); [reflexivity|lia].
 Qed.
+
+(* the output as a bit stream: the code words, then fewer than 8 zero bits, or exactly 8 in
+   the reference-compatible form when the code words end on a byte boundary *)
+Theorem compress_bits t x bug ccap c : wf_table t = true -> bytes_ok x = true ->
+  compress t x bug ccap = Ok c ->
+  bytes_ok c = true
+  /\ exists pad : nat, bits_of_bytes c = encode_bits t x ++ repeat false pad
+       /\ (pad < 8 \/ (bug = true /\ pad = 8))%nat.
+Proof.
+  intros Hwf Hx Hc. destruct (compress_spec t x bug Hwf Hx) as (out & Hlen & Hok & Hbits & Hcomp).
+  rewrite Hcomp in Hc. destruct (length out <=? ccap)%nat; [|discriminate]. injection Hc as <-.
+  split; [exact Hok|]. eexists. split; [exact Hbits|].
+  pose proof (bit_len_bounds t x Hwf Hx) as Hb.
+  unfold bytes_needed. destruct bug; rewrite ?orb_true_r, ?orb_false_r.
+  - destruct (Z.eq_dec (bit_len t x mod 8) 0); [right|left]; Z.div_mod_to_equations; lia.
+  - left. destruct (Z.ltb_spec 0 (bit_len t x mod 8)); Z.div_mod_to_equations; lia.
+Qed.
+
+Theorem len_exact t x (bug : bool) : wf_table t = true -> bytes_ok x = true ->
+  exists n : nat,
+    (if bug then compressed_len_bug t x else compressed_len t x) = Ok (Z.of_nat n)
+    /\ (forall cap, (n <= cap)%nat -> exists c, compress t x bug cap = Ok c /\ length c = n)
+    /\ (forall cap, (cap < n)%nat -> compress t x bug cap = Err tt)
+    /\ (n <= 3 * length x + 4)%nat.
+Proof.
+  intros Hwf Hx. destruct (compress_spec t x bug Hwf Hx) as (out & Hlen & _ & _ & Hcomp).
+  destruct (compressed_len_spec t x Hwf Hx) as [Hl Hlb].
+  pose proof (bit_len_bounds t x Hwf Hx) as Hb.
+  exists (length out). split; [|split; [|split]].
+  - rewrite Hlen. destruct bug; assumption.
+  - intros cap Hcap. exists out. rewrite Hcomp. destruct (Nat.leb_spec (length out) cap); [auto|lia].
+  - intros cap Hcap. rewrite Hcomp. destruct (Nat.leb_spec (length out) cap); [lia|reflexivity].
+  - destruct bug; rewrite ?bytes_needed_true, ?bytes_needed_false in Hlen;
+      Z.div_mod_to_equations; lia.
+Qed.
